@@ -17,8 +17,10 @@ CLAIMS.update({
         text=('Theorems C01_local (for every request, stored entry and clock reading: the hit decision answers from the store '
               'without an origin call only if spec age < spec lifetime (request max-age/min-fresh applied) or an explicit '
               'allowance — max-stale, only-if-cached, the stored stale-while-revalidate window — covers the staleness; saturating '
-              'arithmetic), C01_age_conservative, C01_lifetime_conservative, C01_only_by_decision. Unbounded in header values and '
-              'instants; history level is covered by the extracted monitor mon_C01 evaluated on the real transport each run.'),
+              'arithmetic), C01_age_conservative, C01_lifetime_conservative, C01_only_by_decision, and at history level C01_history_times '
+              '(after EVERY sequential history from an empty store each stored entry carries as request/response instants the start/end of one '
+              'origin call of that history: the instants ages are measured from cannot be anything else). Unbounded in header values and '
+              'instants; the remaining history-level statement (which stored header fields an entry carries) is covered by the extracted monitor mon_C01 on the real transport each run.'),
         note=COMMON_NOTE + ' C01_local assumes of the stored entry what every entry written by the transport satisfies (parsable Date, status not 304).'),
     'C02': dict(
         text=('Theorems C02_local (answering from the store implies the specification\'s needs_validation is false: unqualified no-cache, '
